@@ -134,6 +134,13 @@ func genMessage(r *rand.Rand, big bool) genMsg {
 		sz = 64*1024 + r.Intn(2*1024*1024)
 	}
 	g.payload = randBytes(r, sz)
+	if r.Intn(6) == 0 && sz > 0 {
+		// compressible content: one short record repeated
+		rec := randBytes(r, 1+r.Intn(12))
+		for j := range g.payload {
+			g.payload[j] = rec[j%len(rec)]
+		}
+	}
 	if r.Intn(8) == 0 {
 		// payloads that LOOK compressed already (an application that compresses its own data, a file
 		// upload): the bare gzip magic, a gzip header stub, a real short gzip stream, magic + noise
